@@ -284,6 +284,20 @@ def into(exe, path, callee, args, dst_ty):
     return [('ret', path, args[0])]
 
 
+@contract(r'^<&?(u8|u16|u32|u64|usize|i8|i16|i32|i64|isize) as (BitAnd|BitOr|BitXor|Add|Sub|Mul|Div|Rem|Shl|Shr)<&?\w+>>::\w+$')
+def int_operator_trait(exe, path, callee, args, dst_ty):
+    m = re.match(r'^<&?(\w+) as (\w+)<', callee)
+    ty, op = m.group(1), m.group(2)
+    a, b = exe.deref_all(path, args[0]), exe.deref_all(path, args[1])
+    if op in ('Add', 'Sub', 'Mul'):
+        r = exe.binop(path, None, op + 'WithOverflow', a, b, ty, ty)
+        exe.obligation(path, 'panic:arithmetic overflow', r.fields[1], {'callee': callee})
+        return [('ret', path, r.fields[0])]
+    if op in ('Div', 'Rem'):
+        exe.obligation(path, 'panic:division by zero', b == 0, {'callee': callee})
+    return [('ret', path, exe.binop(path, None, op, a, b, ty, ty))]
+
+
 @contract(r'^(std::option::)?Option::<.*>::map_or::<')
 def option_map_or(exe, path, callee, args, dst_ty):
     v, default, f = args
